@@ -62,7 +62,8 @@ def find_function(module, qualname):
 
 
 def verify_unit(args):
-    famname, kind, key, opts = args
+    famname, kind, key, opts = args[:4]
+    shard, nshards = (args[4], args[5]) if len(args) > 4 else (0, 1)
     cset = load_family(famname)
     tr = Translator(cset, fuel=opts['fuel'])
     results = []
@@ -88,7 +89,10 @@ def verify_unit(args):
             lemmas = list(cset.lemmas)
             serves = c.serves
         meta['paths'] = v.paths
-        for ob in obs:
+        meta['shard'] = [shard, nshards]
+        for oi, ob in enumerate(obs):
+            if oi % nshards != shard:
+                continue
             st, solver, ms, model, reason, size = tr.solve(ob, lemmas, timeout_ms=opts['timeout'], fuel=opts['fuel'])
             if st == 'refuted' and opts.get('refute_fuel', 0) > opts['fuel']:
                 # a sat answer under limited unfolding is only a candidate: retry deeper
@@ -121,7 +125,13 @@ def verify_family(famname, fuel=2, timeout=10000, jobs=None, only=None, refute_f
     if only:
         units = [u for u in units if only in u[2]]
     opts = dict(fuel=fuel, timeout=timeout, refute_fuel=refute_fuel)
-    work = [u + (opts,) for u in units]
+    work = []
+    for u in units:
+        n = 1
+        if u[1] == 'function':
+            n = getattr(cset.fns[u[2]], 'shards', 1)
+        for i in range(n):
+            work.append(u + (opts, i, n))
     jobs = jobs or min(16, max(1, len(work)))
     if jobs == 1 or len(work) <= 1:
         out = [verify_unit(w) for w in work]
@@ -129,6 +139,21 @@ def verify_family(famname, fuel=2, timeout=10000, jobs=None, only=None, refute_f
         ctx = multiprocessing.get_context('fork')
         with ctx.Pool(jobs) as pool:
             out = pool.map(verify_unit, work, chunksize=1)
+    merged = {}
+    order = []
+    for meta, results in out:
+        key = (meta['kind'], meta['key'])
+        if key not in merged:
+            merged[key] = (meta, list(results))
+            order.append(key)
+        else:
+            m0, r0 = merged[key]
+            r0.extend(results)
+            m0['wall_s'] = max(m0['wall_s'], meta['wall_s'])
+            for f in ('outside', 'crash'):
+                if meta.get(f) and not m0.get(f):
+                    m0[f] = meta[f]
+    out = [merged[k] for k in order]
     trusted = [dict(kind='lemma', name=l.name, note=l.note) for l in cset.lemmas if l.trusted] + \
               [dict(kind='function', name=k, note=c.note) for k, c in cset.fns.items() if c.trusted]
     return dict(family=famname, units=out, trusted=trusted, assumptions=list(cset.assumptions))
